@@ -165,6 +165,14 @@
 #[allow(unused_imports)]
 pub mod _documentation;
 
+#[cfg(bpaf_verif)]
+#[macro_use]
+mod verif;
+#[cfg(bpaf_verif)]
+#[doc(hidden)]
+pub mod __verif {
+    pub use crate::verif::api::{install, uninstall, SimExit, StepBudgetExceeded, World};
+}
 mod arg;
 mod args;
 #[cfg(feature = "batteries")]
